@@ -22,5 +22,5 @@ PROP = {
                  'clients are TCP peers on loopback; TCP itself delivers in order',
                  'relay text lines are OK / ERROR ... / BEGIN <hex> / PING; PONG and blank lines are not answered (client side of src/network/RelayClient.cpp)'],
  'confirm_replays': 2,
- 'tiers': {'quick': [rc(6000)],
+ 'tiers': {'quick': [rc(4000)],
            'thorough': [rc(20000, W), fuzz(180, 8, max_len=8 + 6 * 64)]}}
